@@ -287,11 +287,72 @@ def explore(kind, entry="process", extra_pre=None, **hook_kw):
     else:
         raise KeyError(kind)
     inputs["self"], inputs["cfg"] = self_, cfg
+    # the executor is built by its real __init__ from these (arbitrary) arguments, so that private fields the constructor adds exist and anything it
+    # derives is the derived value; that it stores the arguments unchanged is the separate obligation *.init_stores_arguments (init_contract)
+    init = cls.find_method("__init__")
+    fields0 = dict(st.get(self_))
+    if init is not None and all(p_ in fields0 for p_ in init.params[1:]):
+        probe = st.fork()
+        try:
+            res_i = eng.call_func(init, [self_] + [fields0[p_] for p_ in init.params[1:]], {}, probe)
+        except Unsupported:
+            res_i = []
+        if len(res_i) == 1 and res_i[0][0] == "val" and len(probe.trace) == len(st.trace):
+            built = dict(probe.get(self_))
+            extra = {k_: v_ for k_, v_ in built.items() if k_ not in fields0}
+            if extra:
+                st.put(self_, dict(fields0, **extra))
     if extra_pre:
         extra_pre(eng, st, inputs)
     st0 = st.fork()
     paths = eng.run(cls.find_method(entry), [self_], st=st)
     return Exploration(kind, eng, st0, inputs, paths)
+
+
+def init_contract(chk, ex):
+    """The explorations start from an executor whose FIELDS are the arbitrary arguments; the real objects are built by __init__.  Contract of
+    __init__ that licenses this: it does not raise and stores every argument unchanged in the field of the same name (the caller's config
+    object itself, not a rebuilt one that could drop an option), plus the fixed initial value of the private fields."""
+    eng, kind = ex.eng, ex.kind
+    self0 = ex.inputs["self"]
+    cls = self0.cls
+    init = cls.find_method("__init__")
+    if init is None:
+        return True
+    fields = dict(ex.st0.get(self0))
+    params = [p_ for p_ in init.params[1:]]
+    if any(p_ not in fields for p_ in params):
+        chk.undecide(f"{cls.key}.__init__ takes a parameter the exploration has no field for ({[p_ for p_ in params if p_ not in fields]}): the precondition of the handler contracts is not established")
+        return False
+    chk.function(f"{cls.key}.__init__", "verified (stores its arguments)")
+    st = ex.st0.fork()
+    new = st.alloc(cls, {})
+    name = f"{chk.prop}.{kind}.init_stores_arguments"
+    held = True
+    for k, v, s in eng.call_func(init, [new] + [fields[p_] for p_ in params], {}, st):
+        if k != "val":
+            held = chk.prove(name, s.pc, F, desc=f"{cls.name}.__init__ does not raise") and held
+            continue
+        post = s.get(new)
+        conj, bad = [], []
+        for f_, want in fields.items():
+            if f_ == "sub_type":      # derived from the config (child: contract checked in the context contracts)
+                continue
+            got = post.get(f_, "__missing__")
+            if got is want:
+                continue
+            if isinstance(got, str) and got == "__missing__":
+                bad.append(f_)
+                continue
+            if isinstance(got, Ref) or isinstance(want, Ref) or isinstance(got, OpaqueFn) or isinstance(want, OpaqueFn):
+                bad.append(f_)       # a different object than the argument
+                continue
+            conj.append(ops.values_equal(s, got, want))
+        held = chk.prove(name, s.pc, z3.And(z3.BoolVal(not bad), *conj),
+                  desc=f"{cls.name}.__init__ stores every argument unchanged in the field of the same name (the caller's own config object) and the private fields start at their fixed values"
+                       + (f"; fields that are not the argument: {bad}" if bad else ""),
+                  sample=f"{cls.name}.__init__ on arbitrary arguments") and held
+    return held
 
 
 # ------------------------------------------------------------------------------------------------ trace helpers
